@@ -41,7 +41,9 @@ func init() {
 			"node check on the decoding path) whose taken edge reaches only error returns is either the test of an error a callee returned, or a " +
 			"comparison over a clause's value classes that holds for no conforming value — exactly len(Key)≠len(Value), len(Link)≠len(Key)+1 " +
 			"(or len(Link)≠len(Value)+1), keyOrder(previous, next)≥0, keyLayer(key, m.branchFactor)<m.height after operator normalisation; " +
-			"a rejecting branch over values the rule cannot classify is undecided.",
+			"a rejecting branch over values the rule cannot classify is undecided. In LoadMast itself and its helpers that do not read nodes, a rejecting " +
+			"branch must test a callee's error, the recorded node format, or configuration values (with Root.Link); one that depends on the recorded " +
+			"size, height, branch factor or derived thresholds is a violation.",
 		Run: runROOTEXACT,
 	})
 	Register(&Rule{
@@ -3041,6 +3043,8 @@ func runROOTEXACT(c *Ctx) {
 				fmt.Sprintf("the root check rejects when `%s`, which also holds for %s: a root that conforms to the configuration (one MakeRoot produced) is refused by LoadMast; the clause is exactly %s", cd.desc, lmOverText(cd.clause, x), name))
 		}
 	}
+	// (3) LoadMast's own body and its helpers
+	lmCheckRegion(c, lm, vals)
 	// (2) every other purely rejecting branch tests an error a callee returned
 	seenFn := map[*ssa.Function]bool{}
 	for _, fr := range frames {
@@ -3113,4 +3117,285 @@ func lmPairOrder(A, B *lmVal, op token.Token) (lmAtom, bool) {
 		return lmAtom{lpFlipOp(op), -d}, true
 	}
 	return lmAtom{}, false
+}
+
+// ---- ROOTEXACT: the rejections of LoadMast's own region ---------------------------
+//
+// Besides the validator and the decoding path, LoadMast itself (and the private
+// helpers it calls that do not read nodes) may refuse a root. Every branch of
+// that region whose taken edge reaches only error returns must be one of the
+// justified rejections found in the tree today:
+//   - the test of an error a callee returned (the validator, a helper);
+//   - a comparison of Root.NodeFormat with the known formats (unknown format);
+//   - a nil test of a configuration value (RemoteConfig field or the Mast field
+//     copied from it), possibly together with a nil test of Root.Link.
+// A rejection guarded by the numeric Root fields or the Mast fields derived
+// from them (size, height, branch factor, thresholds) is not something the
+// writer guarantees: MakeRoot records whatever the tree has.
+
+const (
+	lmOrgFormat = 1 << iota // Root.NodeFormat, Mast.nodeFormat
+	lmOrgLink               // Root.Link, the Root pointer
+	lmOrgConfig             // RemoteConfig and the Mast fields copied from it
+	lmOrgNum                // Root.Size/Height/BranchFactor and derived Mast fields
+	lmOrgErr                // an error a callee returned
+	lmOrgUnknown
+)
+
+var lmMastNumFields = map[string]bool{"size": true, "height": true, "branchFactor": true, "growAfterSize": true, "shrinkBelowSize": true}
+var lmRootNumFields = map[string]bool{"Size": true, "Height": true, "BranchFactor": true}
+
+type lmRegion struct {
+	c       *Ctx
+	fns     map[*ssa.Function]bool
+	callers map[*ssa.Function][]*ssa.Call
+}
+
+// origin classifies where the operands of v come from.
+func (R *lmRegion) origin(root ssa.Value) int {
+	seen := map[ssa.Value]bool{root: true}
+	work := []ssa.Value{root}
+	push := func(v ssa.Value) {
+		if v != nil && !seen[v] {
+			seen[v] = true
+			work = append(work, v)
+		}
+	}
+	out := 0
+	for n := 0; len(work) > 0; n++ {
+		if n > 3000 {
+			return out | lmOrgUnknown
+		}
+		v := work[len(work)-1]
+		work = work[:len(work)-1]
+		if ir.IsErrorType(v.Type()) {
+			switch v.(type) {
+			case *ssa.Call, *ssa.Extract:
+				out |= lmOrgErr
+				continue
+			}
+		}
+		switch x := v.(type) {
+		case *ssa.Const, *ssa.Global, *ssa.Function, *ssa.Builtin:
+		case *ssa.Parameter:
+			fn := x.Parent()
+			switch {
+			case ir.IsPtrToNamed(x.Type(), "Root"):
+				out |= lmOrgLink
+			case ir.IsPtrToNamed(x.Type(), "RemoteConfig"):
+				out |= lmOrgConfig
+			case lpIsMastPtr(x.Type()):
+				// the Mast under construction: its fields are classified where read
+			case len(R.callers[fn]) > 0:
+				idx := paramIndex(x)
+				for _, cs := range R.callers[fn] {
+					if idx < len(cs.Call.Args) {
+						push(cs.Call.Args[idx])
+					}
+				}
+			default:
+				out |= lmOrgUnknown
+			}
+		case *ssa.Alloc:
+			if x.Referrers() != nil {
+				for _, r := range *x.Referrers() {
+					if st, ok := r.(*ssa.Store); ok && st.Addr == ssa.Value(x) {
+						push(st.Val)
+					}
+				}
+			}
+		case *ssa.UnOp:
+			if x.Op != token.MUL {
+				push(x.X)
+				continue
+			}
+			switch a := x.X.(type) {
+			case *ssa.FieldAddr:
+				name := ir.FieldName(a.X.Type(), a.Field)
+				switch {
+				case ir.IsPtrToNamed(a.X.Type(), "Root"):
+					switch {
+					case name == "NodeFormat":
+						out |= lmOrgFormat
+					case name == "Link":
+						out |= lmOrgLink
+					case lmRootNumFields[name]:
+						out |= lmOrgNum
+					default:
+						out |= lmOrgUnknown
+					}
+				case ir.IsPtrToNamed(a.X.Type(), "RemoteConfig"):
+					out |= lmOrgConfig
+				case lpIsMastPtr(a.X.Type()):
+					switch {
+					case lmMastNumFields[name]:
+						out |= lmOrgNum
+					case name == "nodeFormat":
+						out |= lmOrgFormat
+					case name == "root":
+						out |= lmOrgLink
+					default:
+						out |= lmOrgConfig
+					}
+				default:
+					push(a.X)
+				}
+			case *ssa.IndexAddr:
+				push(a.X)
+				push(a.Index)
+			case *ssa.Global:
+			default:
+				push(x.X)
+			}
+		case *ssa.Call:
+			for _, a := range x.Call.Args {
+				push(a)
+			}
+			if !x.Call.IsInvoke() && ir.Callee(x.Call) == nil {
+				if _, isB := x.Call.Value.(*ssa.Builtin); !isB {
+					push(x.Call.Value)
+				}
+			}
+			if x.Call.IsInvoke() {
+				push(x.Call.Value)
+			}
+		case *ssa.Extract:
+			push(x.Tuple)
+		case *ssa.Phi:
+			for _, e := range x.Edges {
+				push(e)
+			}
+		default:
+			if ins, ok := v.(ssa.Instruction); ok {
+				for _, op := range ins.Operands(nil) {
+					if op != nil && *op != nil {
+						push(*op)
+					}
+				}
+			} else {
+				out |= lmOrgUnknown
+			}
+		}
+	}
+	return out
+}
+
+// lmCheckRegion examines the rejecting branches of LoadMast and of the helpers
+// it calls that do not read nodes (the validator and the loaders are examined
+// by the other parts of ROOTEXACT).
+func lmCheckRegion(c *Ctx, lm *ssa.Function, vals []lmValidator) {
+	P := c.P
+	skip := map[*ssa.Function]bool{}
+	for _, v := range vals {
+		skip[v.fn] = true
+	}
+	R := &lmRegion{c: c, fns: map[*ssa.Function]bool{lm: true}, callers: map[*ssa.Function][]*ssa.Call{}}
+	order := []*ssa.Function{lm}
+	depth := map[*ssa.Function]int{lm: 0}
+	for i := 0; i < len(order); i++ {
+		fn := order[i]
+		for _, ci := range CallsOf(fn) {
+			call, ok := ci.(*ssa.Call)
+			if !ok {
+				continue
+			}
+			g := ir.Callee(call.Call)
+			if g == nil || !isOwn(P, g) || g.Blocks == nil || skip[g] || c.Facts.MayLoad[g] || lmLoadLike(c, g) {
+				continue
+			}
+			R.callers[g] = append(R.callers[g], call)
+			if !R.fns[g] && depth[fn] < 3 {
+				R.fns[g] = true
+				depth[g] = depth[fn] + 1
+				order = append(order, g)
+			}
+		}
+	}
+	purely := func(b *ssa.BasicBlock) bool {
+		k, _ := lpRejects(P, b)
+		if k != lpErrNonNil {
+			return false
+		}
+		// at least one return must be reachable (a panic-only region is not a rejection)
+		for x := range ir.ReachableFrom(b, nil) {
+			if len(x.Instrs) > 0 {
+				if _, ok := x.Instrs[len(x.Instrs)-1].(*ssa.Return); ok {
+					return true
+				}
+			}
+		}
+		return false
+	}
+	for _, fn := range order {
+		if ir.ErrorResultIndex(fn.Signature) < 0 {
+			continue
+		}
+		for _, b := range fn.Blocks {
+			if len(b.Instrs) == 0 || len(b.Succs) != 2 || b.Succs[0] == b.Succs[1] {
+				continue
+			}
+			iff, ok := b.Instrs[len(b.Instrs)-1].(*ssa.If)
+			if !ok {
+				continue
+			}
+			if _, known := ir.ConstBool(iff.Cond); known {
+				continue
+			}
+			p0, p1 := purely(b.Succs[0]), purely(b.Succs[1])
+			if p0 == p1 {
+				continue
+			}
+			pos := P.InstrPos(iff)
+			condText := lpDescCond(iff.Cond, p0)
+			what := fmt.Sprintf("rejection `%s` in %s", condText, ir.FuncName(fn))
+			if tv, _, ok := ir.NilTest(iff.Cond); ok && ir.IsErrorType(tv.Type()) {
+				c.OK(pos, what, "passes on the error of "+lpDesc(tv, 0), true)
+				continue
+			}
+			// the conditions under which this rejection is taken: the branch
+			// itself and the enclosing branches that are not rejections themselves
+			org := R.origin(iff.Cond)
+			for _, fc := range ir.FactsAt(b) {
+				other := fc.From.Succs[0]
+				if fc.Truth {
+					other = fc.From.Succs[1]
+				}
+				if purely(other) {
+					continue // an earlier rejection: judged on its own
+				}
+				if ir.CanReach(other, b) {
+					continue // not a controlling branch (a loop's exit test): the other side gets here too
+				}
+				if tv, _, ok := ir.NilTest(fc.Cond); ok && ir.IsErrorType(tv.Type()) {
+					continue
+				}
+				org |= R.origin(fc.Cond)
+			}
+			switch {
+			case org&lmOrgNum != 0:
+				c.Violation(fn, pos, "rejects on "+condText,
+					fmt.Sprintf("%s refuses a root when `%s`: a condition over the recorded size, height, branch factor or the thresholds derived from them, which the writer does not guarantee (MakeRoot records whatever the tree has) and C19 does not list: a root MakeRoot produced can fail to load", ir.FuncName(fn), condText))
+			case org&lmOrgUnknown != 0:
+				c.Undecided(fn, pos, "rejects on "+condText, "LoadMast's region rejects on a condition whose operands the rule cannot trace to the Root record or the configuration")
+			default:
+				var cls []string
+				if org&lmOrgFormat != 0 {
+					cls = append(cls, "the recorded node format")
+				}
+				if org&lmOrgConfig != 0 {
+					cls = append(cls, "configuration values")
+				}
+				if org&lmOrgLink != 0 {
+					cls = append(cls, "whether the root names a top node")
+				}
+				if org&lmOrgErr != 0 {
+					cls = append(cls, "a callee's error")
+				}
+				if len(cls) == 0 {
+					cls = append(cls, "constants")
+				}
+				c.OK(pos, what, "depends only on "+strings.Join(cls, ", ")+": a listed rejection (unknown format / unusable configuration)", false)
+			}
+		}
+	}
 }
